@@ -51,11 +51,11 @@ func vCheckDoc(sw *spec.Swagger, which string) {
 		vAssert(false, which+": security definition 'oauth' is missing")
 	}
 	vAssert(vReqText(sw.Security) == "key[]", which+": the global security requirement differs from the input")
-	vAssert(sw.Paths != nil && len(sw.Paths.Paths) == 4, which+": not the four paths of the input")
+	vAssert(sw.Paths != nil && len(sw.Paths.Paths) == 5, which+": not the five paths of the input")
 	if sw.Paths == nil {
 		return
 	}
-	things, open := sw.Paths.Paths["/things"], sw.Paths.Paths["/open"]
+	things, open, root := sw.Paths.Paths["/things"], sw.Paths.Paths["/open"], sw.Paths.Paths["/"]
 	type want struct {
 		op       *spec.Operation
 		id       string
@@ -67,6 +67,8 @@ func vCheckDoc(sw *spec.Swagger, which string) {
 		{things.Delete, "dropThings", "oauth[write] | basic[]&qkey[]", true},
 		{things.Post, "adminThings", "oauth[admin,read]", true},
 		{open.Get, "openThing", "", true},
+		{things.Put, "maybeThings", "key[] | ", true},
+		{root.Get, "rootThing", "", false},
 	} {
 		vAssert(w.op != nil, which+": operation "+w.id+" is missing")
 		if w.op == nil {
@@ -85,7 +87,7 @@ func vCheckDoc(sw *spec.Swagger, which string) {
 		}
 		vAssert(w.op.Responses != nil && len(w.op.Responses.StatusCodeResponses) == 1, which+": responses of "+w.id+" differ from the input")
 	}
-	vAssert(things.Put == nil && things.Patch == nil && open.Post == nil && open.Delete == nil, which+": operations the input does not have")
+	vAssert(things.Patch == nil && root.Post == nil && open.Post == nil && open.Delete == nil, which+": operations the input does not have")
 	// an operation the input gives no id keeps none (ids the generator derives are its own business)
 	w := sw.Paths.Paths["/widgets/{id}"]
 	vAssert(w.Get != nil && w.Get.ID == "", which+": an operation without operationId in the input has one")
